@@ -425,9 +425,34 @@ func RegisterCore(p *Program) {
 		}
 		return nil
 	}
+	// sync.Pool: pools of the code under test keep what was put (Get may hit - returning the
+	// object as it was put - or miss: a choice); pools of the standard library always miss.
+	poolOfRepo := func(in *Interp, o *Obj) bool {
+		if in.env.poolRepo == nil {
+			in.env.poolRepo = map[*Obj]bool{}
+		}
+		if v, ok := in.env.poolRepo[o]; ok {
+			return v
+		}
+		res := false
+		for g, go_ := range in.globals {
+			if go_ == o && g.Pkg != nil && strings.HasPrefix(g.Pkg.Pkg.Path(), in.P.RepoMod) {
+				res = true
+			}
+		}
+		in.env.poolRepo[o] = res
+		return res
+	}
 	I["(*sync.Pool).Get"] = func(in *Interp, fr *frame, a []Value) Value {
-		// always miss: call New if set
 		p := a[0].(Ptr)
+		key := poolKey{p.Obj, p.Off}
+		if items := in.env.pools[key]; len(items) > 0 && poolOfRepo(in, p.Obj) {
+			if in.Choose(2) == 0 { // hit (what happens natively in a quiet process)
+				v := items[len(items)-1]
+				in.env.pools[key] = items[:len(items)-1]
+				return v
+			}
+		}
 		st := under(p.Obj.Typ).(*types.Struct)
 		for i := 0; i < st.NumFields(); i++ {
 			if st.Field(i).Name() == "New" {
@@ -439,7 +464,17 @@ func RegisterCore(p *Program) {
 		}
 		return Iface{}
 	}
-	I["(*sync.Pool).Put"] = nop
+	I["(*sync.Pool).Put"] = func(in *Interp, fr *frame, a []Value) Value {
+		p := a[0].(Ptr)
+		if poolOfRepo(in, p.Obj) {
+			if in.env.pools == nil {
+				in.env.pools = map[poolKey][]Value{}
+			}
+			key := poolKey{p.Obj, p.Off}
+			in.env.pools[key] = append(in.env.pools[key], a[1])
+		}
+		return nil
+	}
 	I["math.Float64bits"] = func(in *Interp, fr *frame, a []Value) Value {
 		return in.ts.Const(64, math.Float64bits(a[0].(float64)))
 	}
